@@ -704,6 +704,7 @@ Proof.
   assert (E : forall x, abs s1 x = abs s x).
   { apply abs_fold_make_offline_offline. intros v Iv. unfold l0 in Iv.
     destruct (fl && is4 (h_ip h)); [|destruct Iv]. apply filter_In in Iv. destruct Iv as [_ Pv].
+    apply andb_prop in Pv. destruct Pv as [_ Pv].
     unfold abs. destruct (hlookup v (hosts s)) as [x|]; simpl; auto.
     apply andb_prop in Pv. destruct Pv as [Pv _]. apply negb_true_iff in Pv. exact Pv. }
   destruct (hlookup k (hosts s1)); [|apply E].
